@@ -43,6 +43,70 @@ CLAIMED = {
             "Generated scalars (boundaries, forced leading zero bytes) x compression x networks; hostile strings judged by a "
             "reference shape predicate.",
             "bchec scalar multiplication provides the expected public point; acceptance of scalars 0 / >= n is not asserted."),
+    "C08": ("property-based testing (rapid) with structured-then-mutated generators per entry point (valid outer layer, degenerate inner "
+            "content) and a resource oracle: no panic, no repeated >10 s call, bytes allocated <= 2 MiB + 8 KiB per input byte",
+            "Generated hostile inputs for every parsing entry point named in the statement, incl. constructed CashAddr strings with a "
+            "valid checksum over <8 symbols, empty filter-loads, declared-count GCS/wire inputs and heterogeneous JSON.",
+            "Termination 'at most quadratic' is only checked as 'no hang'; allocation inside bchd's wire decoder is a listed known "
+            "finding (wire-prealloc) with a bounded allowance."),
+    "C09": ("property-based testing (rapid), stateful: generated op sequences run in lock-step with an independent BIP37 model "
+            "(own MurmurHash3 pinned to Bitcoin Core vectors), bit-for-bit comparison after every step",
+            "Generated (filter size, k, tweak, flags) x Add/AddHash/AddOutPoint/Matches/MatchesOutPoint/Unload/Reload sequences; "
+            "MurmurHash3 differential; NewFilter sizing bounds over hostile arguments.",
+            "Empty filters are outside the statement's range (covered by C08). Sampling only."),
+    "C10": ("property-based testing (rapid) over a script grammar and random intra-block spend DAGs with permutations; oracles = "
+            "BIP37 IsRelevantAndUpdate on an independent bloom model (exact answer and bits) and exact-set least fixpoint / final-"
+            "filter bounds for block scans",
+            "Generated transactions/blocks (all script classes, unparsable scripts, empty pushes), three update flags, topological / "
+            "reverse / CTOR / random orders.",
+            "txscript.PushedData/GetScriptClass (bchd) define pushes and classes; pushes of length 36 are excluded."),
+    "C11": ("exhaustive small-scope enumeration (all subsets for n<=10 quick / 15 thorough; structured subsets for n=1..65) + rapid for "
+            "n up to 4000; oracle = independent partial-merkle-tree builder/extractor and merkle root",
+            "Every generated (n, subset) is built by the library (hash-set and both filter-driven builders), compared with the "
+            "canonical BIP37 tree built independently, and extracted by the implementation and the reference.",
+            "crypto/sha256; filter-induced subsets computed with the C09 bloom model."),
+    "C12": ("exhaustive small-scope enumeration (counts {0..7,cap,cap+1,2^32-1} x hash lists over a 3-symbol alphabet x flag strings) + "
+            "rapid mutation of honest proofs; oracle = independent functional extractor with every rejection rule",
+            "Implementation and reference must agree on accept/reject for every message and on root/matches/positions when accepting; "
+            "each rejection reason is required to occur.",
+            "Transaction-count cap computed independently (MaxBlockPayload/61); nil hash pointers not generated."),
+    "C13": ("property-based testing (rapid) with a directed generator that searches 2^18 candidates for low-32-bit collisions of "
+            "reduced hashes; oracle = exact set semantics on own SipHash-2-4 + bits.Mul64 reduction",
+            "Generated keys, P 0..32, M, multisets up to 2000/20000 items and query sets below/above N/2; all four query strategies "
+            "compared with exact set membership.",
+            "SipHash reference pinned to the paper's vectors and cross-checked against aead/siphash."),
+    "C14": ("property-based testing (rapid) against an independent Golomb-Rice encoder / CompactSize serialiser / dSHA256, incl. forced "
+            "carry-path parameters; builder chains and block/mempool filter construction",
+            "Generated filters, blocks and builder chains; bytes, serialisations, rebuilt filters, filter hash and header compared "
+            "with the reference.",
+            "crypto/sha256; SipHash reference as in C13."),
+    "C15": ("property-based testing (rapid), stateful histories over a pool of keys with a per-identity model key (independent BIP32) "
+            "and reflection-captured buffers for Zero",
+            "Generated histories of NewMaster/NewKeyFromString/NewExtendedKey/Child/Neuter/SetNet/Zero/observers; every live key "
+            "re-observed after every step.",
+            "reflect+unsafe read of four private fields (rename = harness error)."),
+    "C16": ("property-based testing (rapid), stateful accessor histories over generated blocks/transactions x 4 constructors; oracle = "
+            "fresh recomputation from the wire message, pointer identity, re-parse",
+            "Generated blocks (0..40 txs, token data) and accessor interleavings incl. out-of-range indices.",
+            "bchd wire serialisation/hashing is the definition of 'fresh computation'; only blocks bchd round-trips byte-for-byte."),
+    "C17": ("property-based testing (rapid) with boundary-directed float/integer generators; oracle = exact arithmetic in math/big",
+            "Generated floats (decimal grid +- ulps, ties, products at 0.5 / odd >= 2^52, random bit patterns, specials), integers up "
+            "to 2.1e15, units -12..12, multipliers.",
+            "No FMA fusion (amd64, checked at run time)."),
+    "C18": ("exhaustive small-scope enumeration (all arrangements of <=6 inputs over 6 keys, <=4/5 outputs over 15 keys) + rapid up to "
+            "300 inputs/outputs; oracle = reference BIP69 comparator, multiset equality, untouched original",
+            "Every generated transaction: Sort/InPlaceSort/IsSorted checked against the reference comparator, permutation and "
+            "non-destructiveness.",
+            "Order among equal keys is not asserted."),
+    "C19": ("property-based testing (rapid): validity predicates per selector, exact reference for the prefix selectors, list model for "
+            "CoinSet histories",
+            "Generated coin lists (ties, zeros), targets, MaxInputs, MinChange, MinAvg for all four selectors; push/pop/shift histories.",
+            "MinPriority is not required to find a selection whenever one exists."),
+    "C20": ("generated concurrent programs executed repeatedly under the Go race detector, with porcupine linearizability checking "
+            "against the sequential BIP37 model and post-join invariants",
+            "Exploration of the interleavings that occur in repeated executions of generated programs (2..32 goroutines); race "
+            "detector + linearizability + no-lost-update + read-your-write checks.",
+            "The harness does not own the scheduler; the static 'all paths' part of the statement is not decided."),
     "C07": ("property-based testing (rapid) + exhaustive small-scope enumeration against independent "
             "reference codecs (long-division Base58, BIP173 reference, bit-stream model) and an argument-purity canary",
             "Generated-input search: exhaustive over byte strings <=2 / alphabet strings <=3 / all byte strings <=2 (3 thorough), "
